@@ -684,6 +684,39 @@ def non_iterables(col, phase=''):
         col.violation('C15/flatten-negative-levels', 'flatten(levels=-1) gave %r' % got, None)
 
 
+def flatten_and_merge_functions_take_any_spec(col):
+    """flatten(t, spec=..) / merge(t, spec=..) take any spec - also unhashable ones (a tuple holding a list spec, a Path object, a dict
+    spec, a Coalesce) - and equal the reduction of what glom(t, spec) yields, call after call"""
+    from glom import Coalesce
+    t = lambda: {'items': [[1, 2], [3], []], 'maps': [{'a': 1}, {'b': 2}, {'a': 3}], 'rows': [{'v': [1]}, {'v': [2, 3]}]}
+    specs = [("Path('items')", lambda: Path('items'), 'items'), ("('items', [T])", lambda: ('items', [T]), 'items'), ("Spec('items')", lambda: Spec('items'), 'items'),
+             ("Coalesce('zz', 'items')", lambda: Coalesce('zz', 'items'), 'items'), ("('rows', ['v'])", lambda: ('rows', ['v']), 'rows-v'),
+             ("('rows', [{'x': 'v'}], [T['x']])", lambda: ('rows', [{'x': 'v'}], [T['x']]), 'rows-v'), ("T['items']", lambda: T['items'], 'items')]
+    for desc, mk, what in specs:
+        src = (lambda d: d['items']) if what == 'items' else (lambda d: [r['v'] for r in d['rows']])
+        for kw_name, kw in (('levels=1', {}), ('levels=1 again', {}), ('lazy', {'init': 'lazy'}), ('levels=0', {'levels': 0})):
+            got = call(flatten, t(), spec=mk(), **kw)
+            if got.ok and kw.get('init') == 'lazy':
+                got = call(lambda: list(got.value))
+            if kw.get('levels') == 0:
+                want = src(t())
+            else:
+                want = list(itertools.chain.from_iterable(src(t())))
+                if kw.get('init') is tuple:
+                    want = tuple(want)
+            col.case(('flatten-any-spec', desc, kw_name), True)
+            col.count('glom_evaluations')
+            if not (got.ok and got.value == want and type(got.value) is type(want)):
+                col.violation('C15/flatten-function-differs:unhashable-or-structured-spec', 'flatten(t, spec=%s, %s): %r, expected %r' % (desc, kw_name, got, want), None)
+    for desc, mk in (("Path('maps')", lambda: Path('maps')), ("('maps', [T])", lambda: ('maps', [T])), ("Spec('maps')", lambda: Spec('maps'))):
+        for n in (1, 2):
+            got = call(merge, t(), spec=mk())
+            col.case(('merge-any-spec', desc, n), True)
+            col.count('glom_evaluations')
+            if not (got.ok and got.value == {'a': 3, 'b': 2}):
+                col.violation('C15/merge-function-differs:unhashable-or-structured-spec', 'merge(t, spec=%s): %r, expected %r' % (desc, got, {'a': 3, 'b': 2}), None)
+
+
 class _Vec:
     """a number-like class written to work with the builtin sum(): 0 + v is v itself; v += w works in place"""
     def __init__(self, v):
@@ -753,6 +786,7 @@ def run(ctx):
         reductions_as_group_aggregators(col)
         lazy_flatten_is_lazy(col)
         elements_taken_over_as_accumulator(col)
+        flatten_and_merge_functions_take_any_spec(col)
         lazily_flatten_items_of_non_iterable_types(col)
         non_iterables(col, ':after-reductions-over-items-of-such-types')
     for i in range(ctx.n(20000, 100000)):
